@@ -57,6 +57,10 @@ def main():
             m = importlib.import_module(mod)
             for fname, text in m.generate(SRC).items():
                 write_if_changed(os.path.join(GEN, fname), text)
+                if fname == 'Tables.v':
+                    # the only generated file the executable model depends on: keep the last translation that succeeded, so that the
+                    # runner can still be built (against the PREVIOUS tables) when a later source is refused — see harness/common.build
+                    write_if_changed(os.path.join(GEN, 'Tables.lastgood'), text)
         except Unsupported as e:
             print(f'py2v: {mod}: unsupported construct: {e}')
             poison(mod, f'unsupported construct: {e}')
